@@ -248,6 +248,24 @@ void OSSLDSAPrivateKey::createOSSLKey()
 	BIGNUM* bn_priv_key = OSSL::byteString2bn(x);
 	BIGNUM* bn_pub_key = BN_new();
 
+	// The key is unusable when a component is missing; OpenSSL crashes on
+	// the NULL values
+	if (bn_p == NULL || bn_q == NULL || bn_g == NULL || bn_priv_key == NULL || bn_pub_key == NULL)
+	{
+		ERROR_MSG("Could not set the DSA private key components");
+
+		BN_free(bn_p);
+		BN_free(bn_q);
+		BN_free(bn_g);
+		BN_clear_free(bn_priv_key);
+		BN_free(bn_pub_key);
+		BN_CTX_free(ctx);
+		DSA_free(dsa);
+		dsa = NULL;
+
+		return;
+	}
+
 	BN_mod_exp(bn_pub_key, bn_g, bn_priv_key, bn_p, ctx);
 	BN_CTX_free(ctx);
 
